@@ -482,7 +482,11 @@ func directedBackupLoop(c *Ctx) {
 		do("svc")
 		observe()
 		for j := 0; j < 3; j++ {
-			pagerStep(c, p, 2)
+			for { // the loop wakes up on a commit
+				if ok, _ := pagerStep(c, p, 2); ok {
+					break
+				}
+			}
 			do("state")
 			do("svc")
 			do("backup-wait")
